@@ -89,7 +89,8 @@ def histories(draw, resume=True, toggles=False, timeouts=False,
 
 @st.composite
 def cases(draw, families=None, blobs=None, priors=None, networks=(0, 0, 0, 1),
-          pools=('none',), hist_kw=None, cfg_kw=None, d_max=5):
+          pools=('none',), hist_kw=None, cfg_kw=None, d_max=5,
+          empty_shell_share=5):
     d = draw(st.integers(2, d_max))
     spec = draw(pr.problem_specs(d=d, families=families, blobs=blobs,
                                  priors=priors))
@@ -98,6 +99,19 @@ def cases(draw, families=None, blobs=None, priors=None, networks=(0, 0, 0, 1),
                           batch=st.just(n_batch),
                           max_live=int(min(150, max(4 * d + 4, 14 * n_batch))),
                           **(cfg_kw or {})))
+    if empty_shell_share and d <= 3 and draw(
+            st.integers(1, empty_shell_share)) == 1:
+        # stratum: tiny batches and live sets make shells that are empty at
+        # the end of exploration (removed there), usually with the discard
+        # view on - the configuration of test_sampler_empty_shells
+        # (measured: with n_update=1 a third of the shells end up empty and
+        # exploration ends after 35-120 batches / 25-90 bound constructions)
+        cfg.update(n_batch=1, n_update=1,
+                   n_live=draw(st.integers(4 * d, 4 * d + 2)),
+                   f_live=draw(st.sampled_from([0.3, 0.1])),
+                   n_points_min=None,
+                   discard_exploration=draw(st.sampled_from(
+                       [True, True, False])))
     if str(cfg['pool']).startswith(('int', 'both')):
         # an integer likelihood pool evaluates likelihood_worker in worker
         # processes only; with vectorized=True nautilus calls it in the
@@ -109,13 +123,21 @@ def cases(draw, families=None, blobs=None, priors=None, networks=(0, 0, 0, 1),
     if spec['prior'] == 'dictfn' or (spec['blob'] == 'S8' and False):
         pass
     hist = draw(histories(**(hist_kw or {})))
-    return dict(spec=spec, cfg=cfg, history=hist)
+    case = dict(spec=spec, cfg=cfg, history=hist)
+    if cfg['n_batch'] == 1 and cfg['n_live'] <= 4 * d + 2 and \
+            cfg['n_update'] == 1:
+        # bound constructions on ~10 points are cheap: allow enough of them
+        # for the exploration phase to end
+        case['caps'] = [120, 400]
+    return case
 
 
 def execute(case, res, on_event=None, on_op=None, use_file=True, clock=False,
             log_calls=True, max_bounds=12, max_batches=150):
     """Run a history.  Exceptions raised by run() itself discard the case
     (the state the property talks about was never produced)."""
+    if case.get('caps'):
+        max_bounds, max_batches = case['caps']
     observers = [on_event] if on_event else []
     lab = sl.Lab(case['spec'], case['cfg'], use_file=use_file,
                  observers=observers, log_calls=log_calls, clock=clock)
